@@ -237,18 +237,22 @@ def paramsOf (cfg : Json) : Params Float :=
     factor60 := Float.exp (Float.ofInt (-5) / 60.0)
     factor300 := Float.exp (Float.ofInt (-5) / 300.0) }
 
-/-! ## running the operational model -/
+/-! ## running the operational model (generic in the number type: `Float` for `accepts`, `Rat` to count
+how often exact arithmetic decides differently from IEEE doubles) -/
 
-structure Run where
+structure Run (α : Type) where
   fs : FS
-  ost : OSt Float
+  ost : OSt α
   crash : Option String := none
   /-- model results, one list per tick -/
   out : List (List Json) := []
 
 def rpOf (cg : String) : RPath := ((FS.comps cg).reverse).map String.toList
 
-def runOp (cfg : Params Float) (r : Run) (op : Json) : Run × Json :=
+section Generic
+variable {α : Type} [Num α] (vj : Res (Val α) → Json) (sj : SysCtx α → Json)
+
+def runOp (cfg : Params α) (r : Run α) (op : Json) : Run α × Json :=
   let k := jstr op "op"
   if FS.isFsop k then ({ r with fs := r.fs.apply op }, Json.null) else
   let w := r.fs.world
@@ -257,14 +261,14 @@ def runOp (cfg : Params Float) (r : Run) (op : Json) : Run × Json :=
     let p := rpOf (jstr op "cg")
     match addToCache w p r.ost with
     | (.ok (), st) =>
-      let (vals, st, cr) := (jstrs op "f").foldl (fun (acc : List Json × OSt Float × Option String) name =>
+      let (vals, st, cr) := (jstrs op "f").foldl (fun (acc : List Json × OSt α × Option String) name =>
         let (vals, st, cr) := acc
         if cr.isSome then acc else
         match accOf name with
         | none => (vals ++ [Json.mkObj [("unknown_accessor", Json.str name)]], st, cr)
         | some a =>
           let (res, st') := getAcc cfg w p a st
-          (vals ++ [resJson res], st', match res with | .crash c => some c | _ => none)) ([], st, none)
+          (vals ++ [vj res], st', match res with | .crash c => some c | _ => none)) ([], st, none)
       ({ r with ost := st, crash := cr }, Json.mkObj [("ctx", Json.bool true), ("v", Json.arr vals.toArray)])
     | (_, st) => ({ r with ost := st }, Json.mkObj [("ctx", Json.bool false)])
   | "kids" =>
@@ -279,22 +283,50 @@ def runOp (cfg : Params Float) (r : Run) (op : Json) : Run × Json :=
       | (_, st') => ({ r with ost := st' }, Json.mkObj [("ctx", Json.bool true), ("kids", mkStrs [])])
     | (_, st) => ({ r with ost := st }, Json.mkObj [("ctx", Json.bool false)])
   | "list" => (r, mkStrs (sortStrs (r.ost.keys.map fun p => relPath (p.map l2s))))
-  | "sys" => (r, sysJson r.ost.sys)
+  | "sys" => (r, sj r.ost.sys)
   | _ => (r, Json.null)
 
-def runTick (cfg : Params Float) (r : Run) (tick : Json) : Run :=
+def runTick (cfg : Params α) (r : Run α) (tick : Json) : Run α :=
   if r.crash.isSome then r else
   let fs := (jarr tick "pre").foldl FS.apply r.fs
   match updateContext cfg fs.world r.ost with
   | .crash c => { r with fs := fs, crash := some c, out := r.out ++ [[]] }
   | .unavailable => { r with fs := fs, crash := some "updateContext", out := r.out ++ [[]] }
   | .ok ost =>
-    let (r, outs) := (jarr tick "ops").foldl (fun (acc : Run × List Json) op =>
+    let (r, outs) := (jarr tick "ops").foldl (fun (acc : Run α × List Json) op =>
       let (r, outs) := acc
       if r.crash.isSome then acc else
-      let (r, j) := runOp cfg r op
+      let (r, j) := runOp vj sj cfg r op
       (r, outs ++ [j])) ({ r with fs := fs, ost := ost }, [])
     { r with out := r.out ++ [outs] }
+
+end Generic
+
+/-- exact arithmetic: only the integer-valued results are rendered (the others are not compared) -/
+def ratJson : Res (Val Rat) → Json
+  | .ok (.int i) => jInt i
+  | .ok (.bool b) => Json.bool b
+  | .unavailable => Json.null
+  | _ => Json.str "-"
+
+def ratParams (cfg : Json) : Params Rat :=
+  let z : Coeffs Rat := { readIops := 0, readBw := 0, writeIops := 0, writeBw := 0, trimIops := 0, trimBw := 0 }
+  { devs := [], hdd := z, ssd := z, decay := 4, interval := 5, factor60 := 0, factor300 := 0 }
+
+/-- accessors whose integer result went through `double` arithmetic in the C++ -/
+def roundedInt (name : String) : Bool :=
+  name == "memory_protection" || name == "average_usage" || name.startsWith "effective_usage"
+
+/-- (compared, different): integer results of the `Float` run against the `Rat` run -/
+def ratFloatDiff (ticks : List Json) (fl rt : List (List Json)) : Nat × Nat :=
+  (ticks.zip (fl.zip rt)).foldl (fun acc x =>
+    let (tick, a, b) := x
+    ((jarr tick "ops").zip (a.zip b)).foldl (fun acc y =>
+      let (op, ja, jb) := y
+      if jstr op "op" != "get" then acc else
+      ((jstrs op "f").zip ((jarr ja "v").zip (jarr jb "v"))).foldl (fun (acc : Nat × Nat) z =>
+        let (name, va, vb) := z
+        if roundedInt name && !isNull va then (acc.1 + 1, acc.2 + (if va == vb then 0 else 1)) else acc) acc) acc) (0, 0)
 
 def initFS (sc : Json) : FS :=
   let fs : FS := { dirs := [], next := 1, proc := [], dtype := (jbool? (jobj sc "cfg") "dtype").getD true }
@@ -381,7 +413,11 @@ def handle (j : Json) : Json :=
   let cfg := paramsOf (jobj sc "cfg")
   let ticksJ := jarr sc "ticks"
   -- operational model
-  let run := ticksJ.foldl (runTick cfg) { fs := initFS sc, ost := OSt.init }
+  let run : Run Float := ticksJ.foldl (runTick resJson sysJson cfg) { fs := initFS sc, ost := OSt.init }
+  -- the same history in exact arithmetic
+  let runR : Run Rat := ticksJ.foldl (runTick ratJson (fun _ => Json.null) (ratParams (jobj sc "cfg")))
+    { fs := initFS sc, ost := OSt.init }
+  let (rfCmp, rfDiff) := ratFloatDiff ticksJ run.out runR.out
   let implTicks := (jarr tr "ticks").map asArr
   let outcome := jstr tr "outcome"
   let implThrow := implTicks.any fun ops => ops.any fun r => (jarr r "v").any fun v => jhas v "throw"
@@ -465,10 +501,12 @@ def handle (j : Json) : Json :=
   let crashOk := !implCrashed || run.crash.isSome
   let viol := if crashOk then viol else viol ++ ["outcome:" ++ (if outcome != "ok" then outcome else "throws")]
   let dtype := (jbool? (jobj sc "cfg") "dtype").getD true
-  let cls := if viol.isEmpty then "" else if !dtype then "no-d_type" else viol.headD ""
+  -- input-class key: the d_type-less worlds are one class; otherwise the kind of clause that failed first
+  let cls := if viol.isEmpty then "" else if !dtype then "no-d_type" else ((viol.headD "").splitOn ".").headD ""
   verdict id accepts viol.isEmpty viol cls
     [("model_crash", match run.crash with | some c => Json.str c | none => Json.null),
      ("checked", jNat hold.checked), ("temporal_checked", jNat hold.temporalChecked),
+     ("rat_float_compared", jNat rfCmp), ("rat_float_differ", jNat rfDiff),
      ("model", if accepts then Json.null else Json.arr (run.out.map fun l => Json.arr l.toArray).toArray)]
 
 end Driver.Fsread
